@@ -83,6 +83,8 @@ type harness struct {
 
 	once  sync.Once
 	flows []*flow
+	// ctx is the context the node runs in, set before the boundary flows start
+	ctx context.Context
 }
 
 // activation is one token waiting in the activity for its answer
@@ -206,7 +208,12 @@ func newHarness(wr *wiring, idGenerator id.IGenerator, constructor constructor) 
 				}
 				atomic.StoreInt32(&node.interrupted, 1)
 				node.cancellation.Do(func() {
-					<-node.activity.Cancel()
+					select {
+					case <-node.activity.Cancel():
+					case <-node.ctx.Done():
+						// the activity's loop has stopped with the instance and will
+						// not answer
+					}
 				})
 				return action
 			}
@@ -259,6 +266,7 @@ func (node *harness) run(ctx context.Context, sender tracing.ISenderHandle) {
 
 func (node *harness) NextAction(ctx context.Context, flow Flow) chan IAction {
 	node.once.Do(func() {
+		node.ctx = ctx
 		sender := node.tracer.RegisterSender()
 		go node.run(ctx, sender)
 		for i := range node.flows {
